@@ -16,7 +16,7 @@ theorem `… = .ok _`, per production and under exactly the guards the rule's ow
   1 … 9990 (in particular 1970–2100, every month end, leap day, year end);
 * `latent_rules_total`: latent day of month / day+month / weekday / part of day (existence proofs of C04);
 * `latent_total`: latent anchoring never raises on well-formed clock values;
-* `interval_rules_total`, `value_rules_total` (module `C01Ext`): date + clock range, part of day + range; one dispatcher-level statement for all 56 value-level productions;
+* `interval_rules_total`, `value_rules_total` (module `C01Ext`): date + clock range, part of day + range; one dispatcher-level statement for all 58 value-level productions;
 * `duration_rules_total`: '<date> for N units' never raises — out-of-calendar ends make the production fail instead (D5);
 * `int_ascii_total`: `int()` of a non-empty ASCII digit string never raises;
 * the search itself: an exception can only come from a production (`run` has no other error source but fuel, C15), and the
